@@ -207,6 +207,8 @@ pub struct VGen<'a, 't, 'g> {
     funcs: Vec<FuncInfo>,
     globals: Vec<GlobalInfo>,
     progs: Vec<String>,
+    /// per program type: its function block instances (instance name, index of the block)
+    prog_insts: Vec<(String, Vec<(String, usize)>)>,
     cur_decl: usize,
     cur_class: String,
     ref_edges: usize,
@@ -423,7 +425,18 @@ impl<'a, 't, 'g> VGen<'a, 't, 'g> {
                     let e = self.enums[base].clone();
                     self.ref_edges += 1;
                     self.enums.push(EnumInfo { name: name.clone(), values: e.values.clone() });
-                    DataTypeDeclarationKind::LateBound(LateBoundDeclaration { data_type_name: Type::from(&name), base_type_name: Type::from(&e.name) })
+                    if self.t.ratio(1, 3) && self.g.want("ENUM_ALIAS_WITH_DEFAULT") {
+                        // `a : b := v;` - an enumeration declaration from the start (no late binding); the
+                        // base is a use of a type name like any other
+                        let v = e.values[self.t.below(e.values.len())].clone();
+                        let base_ty = self.type_ref(&e.name);
+                        DataTypeDeclarationKind::Enumeration(EnumerationDeclaration {
+                            type_name: Type::from(&name),
+                            spec_init: EnumeratedSpecificationInit { spec: EnumeratedSpecificationKind::TypeName(base_ty), default: Some(EnumeratedValue::new(&v)) },
+                        })
+                    } else {
+                        DataTypeDeclarationKind::LateBound(LateBoundDeclaration { data_type_name: Type::from(&name), base_type_name: Type::from(&e.name) })
+                    }
                 }
                 3 | 4 => {
                     let k = 1 + self.t.count(0, 4);
@@ -1358,7 +1371,42 @@ impl<'a, 't, 'g> VGen<'a, 't, 'g> {
         self.cur_class = "prog.body".into();
         let body = if self.p.sfc && self.t.ratio(1, 6) { self.sfc_body(&scope) } else { FunctionBlockBodyKind::stmts(self.stmts(&scope, None, 0, 1)) };
         self.progs.push(name.clone());
-        out.push(LibraryElementKind::ProgramDeclaration(ProgramDeclaration { name: id(&name), variables: vars, access_variables: vec![], body }));
+        self.prog_insts.push((name.clone(), scope.iter().filter_map(|v| if let VKind::Fb(f) = v.kind { Some((v.name.clone(), f)) } else { None }).collect()));
+        // access paths to variables of the program (`VAR_ACCESS a : v : T READ_ONLY; END_VAR`): the type
+        // is written out, a use of a type name like any other
+        let mut access_variables = vec![];
+        if self.t.ratio(1, 5) && self.g.want("PROGRAM_ACCESS_VARIABLES") {
+            self.cur_class = "prog.access".into();
+            let cands: Vec<VarInfo> = scope.iter().filter(|v| matches!(v.kind, VKind::Simple(_) | VKind::EnumInit(_) | VKind::EnumNoInit(_) | VKind::Struct(_))).cloned().collect();
+            let na = if cands.is_empty() { 0 } else { 1 + self.t.count(0, 1) };
+            for _ in 0..na {
+                let v = cands[self.t.below(cands.len())].clone();
+                let ty = match &v.kind {
+                    VKind::Simple(t) => t.clone().into(),
+                    VKind::EnumInit(e) | VKind::EnumNoInit(e) => {
+                        let n = self.enums[*e].name.clone();
+                        self.type_ref(&n)
+                    }
+                    VKind::Struct(si) => {
+                        let n = self.structs[*si].name.clone();
+                        self.type_ref(&n)
+                    }
+                    _ => unreachable!(),
+                };
+                let an = self.fresh_local();
+                access_variables.push(ProgramAccessDecl {
+                    access_name: id(&an),
+                    symbolic_variable: SymbolicVariableKind::Named(NamedVariable { name: id(&v.name) }),
+                    type_name: ty,
+                    direction: match self.t.below(3) {
+                        0 => None,
+                        1 => Some(Direction::ReadOnly),
+                        _ => Some(Direction::ReadWrite),
+                    },
+                });
+            }
+        }
+        out.push(LibraryElementKind::ProgramDeclaration(ProgramDeclaration { name: id(&name), variables: vars, access_variables, body }));
     }
     fn plan_globals(&mut self) {
         if !self.p.config || !self.t.ratio(2, 3) {
@@ -1472,12 +1520,37 @@ impl<'a, 't, 'g> VGen<'a, 't, 'g> {
             if r == 0 {
                 first_names = Some((rname.clone(), ron.clone(), pnames_here.clone()));
             }
+            // initial values for function block instances of the programs (`VAR_CONFIG res.prog.inst : FB
+            // := (input := 1); END_VAR`): the block's type is written out, a use of a type name
+            let mut fb_inits = vec![];
+            if self.g.want("CONFIGURATION_FB_INIT") {
+                for pc in programs.iter() {
+                    let insts: Vec<(String, usize)> = self.prog_insts.iter().find(|(n, _)| n.eq_ignore_ascii_case(pc.type_name.original())).map(|(_, v)| v.clone()).unwrap_or_default();
+                    let insts: Vec<(String, usize)> = insts.into_iter().filter(|(_, f)| !self.fbs[*f].inputs.is_empty()).collect();
+                    if !insts.is_empty() && self.t.ratio(1, 3) {
+                        let (inst, f) = insts[self.t.below(insts.len())].clone();
+                        let fb = self.fbs[f].clone();
+                        let (iname, ity) = fb.inputs[self.t.below(fb.inputs.len())].clone();
+                        let ty = self.type_ref(&fb.name);
+                        let c = self.elem_const(&ity);
+                        fb_inits.push(FunctionBlockInit {
+                            resource_name: id(&rname),
+                            program_name: pc.name.clone(),
+                            // (the parser keeps the whole instance path in `fb_path` and leaves `fb_name` empty)
+                            fb_path: vec![id(&inst)],
+                            fb_name: id(""),
+                            type_name: ty,
+                            initializer: vec![StructureElementInit { name: id(&iname), init: StructInitialValueAssignmentKind::Constant(c) }],
+                        });
+                    }
+                }
+            }
             let cname = if r == 0 { name.clone() } else { self.fresh() };
             out.push(LibraryElementKind::ConfigurationDeclaration(ConfigurationDeclaration {
                 name: id(&cname),
                 global_var: if r == 0 { std::mem::take(&mut global_var) } else { vec![] },
                 resource_decl: vec![ResourceDeclaration { name: id(&rname), resource: id(&ron), global_vars: if r == 0 { std::mem::take(&mut resource_globals) } else { vec![] }, tasks, programs }],
-                fb_inits: vec![],
+                fb_inits,
                 located_var_inits: vec![],
             }));
         }
@@ -1511,6 +1584,7 @@ pub fn gen_unit_multi(t: &mut Tape, gates: &Gates, profile: &Profile, fault: Vec
         funcs: vec![],
         globals: vec![],
         progs: vec![],
+        prog_insts: vec![],
         cur_decl: 0,
         cur_class: String::new(),
         ref_edges: 0,
